@@ -16,7 +16,9 @@ for tc in tree.iter("testcase"):
     bad = any(ch.tag in ("failure", "error", "skipped") for ch in tc)
     # a test may appear twice (setup error + call); keep worst
     status[name] = status.get(name, True) and not bad
-missing = sorted(t for t in stable if t not in status)
+# id depends on the CPU count of the machine (auto-8 vs auto-16): not a regression
+ENV_DEPENDENT = {"test.cli.test_validation::test_convert_workers[auto-8]"}
+missing = sorted(t for t in stable if t not in status and t not in ENV_DEPENDENT)
 failed = sorted(t for t in stable if status.get(t) is False)
 print(f"stable_pass={len(stable)} seen={len(status)} passed_total={sum(status.values())}")
 print(f"stable missing={len(missing)} stable not-passing={len(failed)}")
